@@ -294,7 +294,7 @@ func main() {
 		h.ringReuse("edwards25519", edRingSuite, 100)
 		h.ringReuse("dlog", dlogRingSuite, 40)
 		h.schnorrReal(2)
-		h.eddsaAll(200, true, 48, 60, 7, 160, 12)
+		h.eddsaAll(200, true, 48, 60, 5, 120, 12)
 		h.predCases(300)
 		h.ringOracle("edwards25519", edRingSuite, all, 3)
 		h.schnorrDlogCases(16)
@@ -302,7 +302,7 @@ func main() {
 		h.ringDlogCases(all, 3)
 	}
 	if !o.Search {
-		vh.WriteShards(o.Out, "c08", &vh.CaseFile{Header: "From Kyber Require Import Sig.SigRun.", Type: "case", Runner: "mismatches", Items: h.items}, 100, rep)
+		vh.WriteShards(o.Out, "c08", &vh.CaseFile{Header: "From Kyber Require Import Sig.SigRun.", Type: "case", Runner: "mismatches", Items: h.items}, 125, rep)
 	}
 	for _, s := range []string{"schnorr-real:edwards25519", "eddsa-sign", "case:eddsa-verify", "case:ring-dlog-verify"} {
 		rep.Sample(map[string]interface{}{"class": s, "count": rep.Distribution[s]})
